@@ -5,9 +5,17 @@ VARIANTS = {
     "aes:ni+hazmat": dict(crate="aes", features=["hazmat"], common_mods=["uf", "generic"]),
 }
 _NI = ["aes/ni_model.rs", "aes/c02_ni.rs"]
+_X = ["aes/ni_model.rs", "aes/x_ni.rs"]
+_HZ = ["aes/ni_model.rs", "aes/c17_ni.rs"]
 PLAN = {
     "C02": [("aes:ni", _NI)],
-    "C03": [("aes:ni", _NI)],
-    "C12": [("aes:ni", _NI)],
+    "C03": [("aes:ni", _NI), ("aes:ni+hazmat", _HZ)],
+    "C12": [("aes:ni", _NI + ["aes/x_ni.rs"])],
     "C13": [("aes:ni", _NI)],
+    "C04": [("aes:ni", _X), ("aes:ni+hazmat", _HZ)],
+    "C15": [("aes:ni", _X)],
+    "C16": [("aes:ni+zeroize", _X)],
+    "C17": [("aes:ni+hazmat", _HZ)],
+    "C19": [("aes:ni", _X)],
+    "C20": [("aes:ni", _X)],
 }
